@@ -25,8 +25,11 @@ import (
 
 var guarded = map[string]bool{
 	"RatingType": true, "ReservedQuota": true, "AcctRequestNum": true, "UnitCost": true, "Cdr": true, "Records": true,
-	"NotifyUri": true, "RatingGroups": true, "LocalRecordSequenceNumber": true,
+	"NotifyUri": true, "RatingGroups": true, "LocalRecordSequenceNumber": true, "RecordSequenceNumber": true,
 }
+
+// fields of the CHF context (as opposed to a subscriber context) are told apart by the receiver's name
+var ctxNames = map[string]bool{"self": true, "context": true, "chfContext": true, "c": true}
 
 type access struct {
 	fn, field string
@@ -164,7 +167,11 @@ func (w *walker) expr(e ast.Node, held map[string]bool, write bool) {
 			}
 		case *ast.SelectorExpr:
 			if guarded[x.Sel.Name] {
-				accesses = append(accesses, access{w.fn, x.Sel.Name, write, list(held), fset.Position(x.Pos()).String()})
+				name := x.Sel.Name
+				if id, ok := x.X.(*ast.Ident); ok && ctxNames[id.Name] && name != "LocalRecordSequenceNumber" {
+					name = "ctx." + name
+				}
+				accesses = append(accesses, access{w.fn, name, write, list(held), fset.Position(x.Pos()).String()})
 			}
 		}
 		return true
@@ -445,8 +452,8 @@ func main() {
 	for _, d := range decls {
 		w := &walker{fn: d.name}
 		held := map[string]bool{}
-		if d.name == "ChfUe.init" {
-			held["unpublished"] = true
+		if d.name == "ChfUe.init" || d.name == "InitChfContext" {
+			held["unpublished"] = true // constructor of a subscriber context; start-up, before any request is served
 		}
 		w.block(d.body, held)
 	}
@@ -531,10 +538,23 @@ func main() {
 	for _, a := range accesses {
 		l := with(a.fn, a.held)
 		need := "CULock"
-		if a.field == "LocalRecordSequenceNumber" {
+		if a.field == "LocalRecordSequenceNumber" || strings.HasPrefix(a.field, "ctx.") {
 			need = "ctx"
 		}
 		ok := false
+		written := false
+		for _, b := range accesses {
+			if b.field == a.field && b.write {
+				unpub := false
+				for _, h := range with(b.fn, b.held) {
+					unpub = unpub || h == "unpublished"
+				}
+				written = written || !unpub
+			}
+		}
+		if !written {
+			ok = true // never written once published: read-only
+		}
 		for _, h := range l {
 			if h == need || h == "unpublished" {
 				ok = true
